@@ -83,12 +83,32 @@ BAD_PREFIXES_NONALPHA = ["s1:", "s-c:", ":", "1:", "a_b:", "sc.:"]
 _loaded = {}
 
 
+class LoadFailed(Exception):
+    """a configuration that the property lists as available offline could not be built: an observation, not a harness fault"""
+    def __init__(self, spec, exc):
+        super().__init__(repr(spec), repr(exc)[:300])
+        self.spec, self.exc = spec, exc
+
+
 def load(spec):
     from hed.schema import load_schema_version
     key = repr(spec)
     if key not in _loaded:
-        _loaded[key] = load_schema_version(spec)
+        try:
+            _loaded[key] = load_schema_version(spec)
+        except Exception as e:        # recorded by guarded() as a failure of C13.load.offline_pairing_loads
+            raise LoadFailed(spec, e) from e
     return _loaded[key]
+
+
+def guarded(w, what, f, *args):
+    """run one part; a configuration that fails to load fails the load clause for that part instead of ending the workload"""
+    try:
+        return f(w, *args)
+    except LoadFailed as e:
+        w.case(key=("load-failed", what, repr(e.spec)), nontrivial=True, sample={"load": e.spec})
+        w.fail("C13.load.offline_pairing_loads", {"load": e.spec, "part": what}, "EXC " + repr(e.exc)[:300], "the configuration loads")
+        return 0
 
 
 # ------------------------------------------------------------------------------------------------------------------
@@ -1180,12 +1200,12 @@ def run(w: Workload):
     n_tags = 25 if w.quick else 120
     gis = QUICK_GROUPS if w.quick else list(range(len(GROUPS)))
     for gi in gis:
-        n = run_group(w, gi, n_tags)
+        n = guarded(w, "group %s" % (GROUPS[gi][0],), run_group, gi, n_tags)
         w.part("group %s" % GROUPS[gi][0], cases=n, bound="%d sampled standard + %d library tags per member, each in ~5 "
                "spellings, + ~60 composed annotations; bad prefixes on every 5th" % (n_tags, n_tags), exhaustive=False)
     n_hist = 3 if w.quick else 12
     for gi in (QUICK_HISTORY if w.quick else list(range(len(GROUPS)))):
-        n = run_history(w, gi, n_hist)
+        n = guarded(w, "history %s" % (GROUPS[gi][0],), run_history, gi, n_hist)
         if n:
             w.part("history %s" % GROUPS[gi][0], cases=n, bound="every ordered pair (parsed with, validated with) of {group, each "
                    "member alone}; %d sampled standard + %d library tags per member in ~5 spellings + ~60 composed annotations, "
@@ -1196,7 +1216,7 @@ def run(w: Workload):
     folder = tempfile.mkdtemp(prefix="c13_")
     try:
         for pi in (range(3) if w.quick else range(len(CONFIG_PAIRINGS))):
-            n = run_config_history(w, pi, 3 if w.quick else 10, folder)
+            n = guarded(w, "configuration history %d" % pi, run_config_history, pi, 3 if w.quick else 10, folder)
             std_v, lib_v, p, edit = CONFIG_PAIRINGS[pi]
             w.part("configuration history %s + %s%s as %s" % (std_v, lib_v, " (edited: %s)" % edit if edit else "", p), cases=n,
                    bound="%d ways a schema object is used before it gets / changes / loses its prefix x {prefixed member, unprefixed or "
@@ -1208,7 +1228,7 @@ def run(w: Workload):
     finally:
         shutil.rmtree(folder, ignore_errors=True)
     for lib, std in (PARTNERS[:2] + PARTNERS[4:6] if w.quick else PARTNERS):
-        n = run_partner(w, lib, std, 150 if w.quick else 0)
+        n = guarded(w, "partnered %s" % lib, run_partner, lib, std, 150 if w.quick else 0)
         w.part("partnered %s with %s" % (lib, std), cases=n, bound="every entry of the standard schema (tags, unit classes, units, "
                "modifiers, value classes, attributes, properties) compared; own tags vs XML; verdict of " +
                ("150 sampled" if w.quick else "all") + " standard tags", exhaustive=not w.quick)
